@@ -34,7 +34,7 @@ WriteThrough(m, slots, k) ==
 AWriteThrough(E, pvs, k) ==
     {IF \E j \in 1..Len(pvs) : pvs[j].p.n = e.n /\ (k = 0 \/ k = j) THEN [e EXCEPT !.v = Flip(@)] ELSE e : e \in E}
 Observers == {"Get", "GetKV", "Contains", "Lpm", "Spm", "Cover", "Children", "Iter", "Len",
-              "ViewDesc", "Find", "Alias", "CloneCheck", "Collect", "Serde", "SplitOp"}
+              "ViewDesc", "Find", "Alias", "CloneCheck", "Collect", "Serde", "SplitOp", "Misc"}
 
 \* C14: the slots to which mutable references are handed out simultaneously
 \*   "iter"        view.iter_mut()
@@ -112,6 +112,10 @@ Apply(m, e) ==
       \* C19: clone() is equal and independent; rebuilding from the own entries (collect, serde round
       \* trip) gives an equal map.  In the specification maps are values, so these are identities;
       \* the events exist to be executed on the code: <<equal, independent one way, independent the other>>
+      \* small API surface without a state of its own, executed on the code only: <<Default iterators are
+      \* empty, Debug formatting terminates and names every stored prefix, a cloned / re-viewed TrieView shows
+      \* the same, IntoIterator of a view = iter()>>
+      [] e.a = "Misc"           -> Res(m, <<1, 1, 1, 1>>)
       [] e.a = "CloneCheck"     -> Res(m, <<1, 1, 1>>)
       [] e.a = "Collect"        -> Res(m, <<B2S(EqAlg1(m, CollectOf(m)))[1], B2S(Tree(CollectOf(m)) = Tree(CollectOf(CollectOf(m))))[1]>>)
       [] e.a = "Serde"          -> Res(m, <<1>>)
@@ -176,6 +180,7 @@ AbsApply(E, e, r) ==
       \* views: the abstract map cannot know shapes or the prefixes of value-less nodes; the
       \* machine's answer is judged by the predicates in RetAgrees instead of by equality
       [] e.a \in {"ViewDesc", "Find", "Alias", "SplitOp"} -> ARes(E, r.ret)
+      [] e.a = "Misc"           -> ARes(E, <<1, 1, 1, 1>>)
       [] e.a = "CloneCheck"     -> ARes(E, <<1, 1, 1>>)
       [] e.a = "Collect"        -> ARes(E, <<1, 1>>)
       [] e.a = "Serde"          -> ARes(E, <<1>>)
